@@ -1837,6 +1837,7 @@ package nutsdb
 // $dynamic.managed is the contract ASSUMED for the callback passed to Update / View: it uses the transaction
 // API only (frames of the Tx methods), does not finish the transaction itself and does not panic.
 //@ func $dynamic.managed (tx) (err)
+//@   assumed contract of the client callback passed to Update / View (client code is not part of the library)
 //@   ensures lockMode == old(lockMode) && tx.db == old(tx.db) && tx.writable == old(tx.writable) && tx.ReservedStoreTxIDIdxes == old(tx.ReservedStoreTxIDIdxes)
 //@   ensures old(pendingOK(tx)) ==> pendingOK(tx)
 //@   ensures !tx.writable ==> len(tx.pendingWrites) == old(len(tx.pendingWrites))
